@@ -478,8 +478,40 @@ fn sweep<T: SeedSubject>(info: &TypeInfo, kind: Option<Kind>, job: &SweepJob) ->
 // ------------------------------------------------------------------------------------------------
 // JitterRng over a scripted timer
 // ------------------------------------------------------------------------------------------------
+/// The timer of a scripted JitterRng: a cursor over shared readings. In `forking` mode a clone of
+/// the cursor (made when the generator is cloned) is independent: same readings, same position.
+pub struct Cursor {
+    script: Arc<TimerScript>,
+    forking: bool,
+}
+
+thread_local! {
+    static LAST_FORK: std::cell::RefCell<Option<Arc<TimerScript>>> = const { std::cell::RefCell::new(None) };
+}
+
+impl Clone for Cursor {
+    fn clone(&self) -> Cursor {
+        let script = if self.forking { self.script.fork() } else { self.script.clone() };
+        LAST_FORK.with(|l| *l.borrow_mut() = Some(script.clone()));
+        Cursor { script, forking: self.forking }
+    }
+}
+
+/// A cloneable closure-like timer (JitterRng needs `F: Fn() -> u64 + Send + Sync`, and `Clone` to
+/// be cloneable); stable Rust cannot implement Fn for a struct, so the generator is generic over a
+/// closure type produced by `timer_closure` and cloning goes through `Cursor::clone`.
+fn timer_closure(c: Cursor) -> impl Fn() -> u64 + Send + Sync + Clone + 'static {
+    // capture the whole Cursor (edition-2021 closures would otherwise capture only `c.script`, and
+    // cloning the closure would bypass Cursor::clone)
+    move || {
+        let cur: &Cursor = &c;
+        cur.script.read()
+    }
+}
+
 pub struct JitterGen<F: Fn() -> u64 + Send + Sync + Clone + 'static> {
     rng: JitterRng<F>,
+    script: Arc<TimerScript>,
 }
 
 impl<F: Fn() -> u64 + Send + Sync + Clone + 'static> JitterOps for JitterGen<F> {
@@ -513,6 +545,9 @@ impl<F: Fn() -> u64 + Send + Sync + Clone + 'static> JitterOps for JitterGen<F> 
     fn half_pending(&self) -> bool {
         self.rng.verif_half_pending()
     }
+    fn timer_consumed(&self) -> usize {
+        self.script.consumed()
+    }
 }
 
 impl<F: Fn() -> u64 + Send + Sync + Clone + 'static> Gen for JitterGen<F> {
@@ -532,7 +567,11 @@ impl<F: Fn() -> u64 + Send + Sync + Clone + 'static> Gen for JitterGen<F> {
         panic!("long_jump not offered")
     }
     fn clone_box(&self) -> Box<dyn Gen> {
-        Box::new(JitterGen { rng: self.rng.clone() })
+        LAST_FORK.with(|l| *l.borrow_mut() = None);
+        let rng = self.rng.clone();
+        // the cursor the cloned timer reads from (the clone of the closure cloned its Cursor)
+        let script = LAST_FORK.with(|l| l.borrow_mut().take()).unwrap_or_else(|| self.script.clone());
+        Box::new(JitterGen { rng, script })
     }
     fn eq_dyn(&self, _other: &dyn Gen) -> Option<bool> {
         None
@@ -555,9 +594,9 @@ impl<F: Fn() -> u64 + Send + Sync + Clone + 'static> Gen for JitterGen<F> {
     }
 }
 
-fn make_jitter(script: Arc<TimerScript>) -> Box<dyn Gen> {
-    let timer = move || script.read();
-    Box::new(JitterGen { rng: JitterRng::new_with_timer(timer) })
+fn make_jitter(script: Arc<TimerScript>, forking: bool) -> Box<dyn Gen> {
+    let timer = timer_closure(Cursor { script: script.clone(), forking });
+    Box::new(JitterGen { rng: JitterRng::new_with_timer(timer), script })
 }
 
 // ------------------------------------------------------------------------------------------------
@@ -676,7 +715,10 @@ impl Registry for Reg {
         self.cores.clone()
     }
     fn jitter(&self, script: Arc<TimerScript>) -> Box<dyn Gen> {
-        make_jitter(script)
+        make_jitter(script, false)
+    }
+    fn jitter_forking(&self, script: Arc<TimerScript>) -> Box<dyn Gen> {
+        make_jitter(script, true)
     }
     fn jitter_info(&self) -> &TypeInfo {
         &self.jitter_info
